@@ -32,7 +32,7 @@ SPEC = {
 
 
 def generate(rng, tier, shard, nshards, mon):
-    n = (700 if tier == "quick" else 12000) // nshards
+    n = (2000 if tier == "quick" else 16000) // nshards
     lo, hi = (5, 40) if tier == "quick" else (5, 120)
     for _ in range(n):
         init = history.gen_init(rng, max_depth=3, ctors=["fromFiber", "fromFiber", "fromUncompressed", "empty", "fromRandom",
